@@ -42,8 +42,8 @@ CHECKS = [
     dict(
         id='C01', level='exploration',
         technique='property-based testing: grammar-generated NM-TRAN control streams, differential against an independent reference NM-TRAN interpreter (text -> values) with numeric evaluation of the model IR',
-        text='Control streams generated from a grammar of NM-TRAN ($PRED or $PK/$ERROR with ADVAN1-4,10-12 x TRANS, IF/ELSEIF/ELSE, functions, operator spellings, $THETA/$OMEGA/$SIGMA layouts incl. BLOCK/SAME/SD/CORR/CHOLESKY/repeats/FIX positions, layout noise) are read by pharmpy; parameters, random-effect covariance and block structure, every definitely-assigned variable, Y, the ODE right-hand side per NONMEM compartment, dose compartment, lag and bioavailability are compared at sampled inputs with the meaning the reference interpreter (own recursive-descent Fortran-precedence parser + PREDPP library table) gives the same text. Violations are attributed to switchable generator shapes by ablation so that known findings exclude exactly their shape.',
-        note='The reference interpreter is my reading of the NONMEM guides (no NONMEM available); its parser is cross-checked against the generator AST on every case. Models are read without a dataset, so CMT/RATE-dependent routing, ADVAN5/7 and $DES are not covered yet (see DESIGN.md). Tolerance 1e-9 relative (1e-6 for TRANS5/6 rate formulas).',
+        text='Control streams generated from a grammar of NM-TRAN ($PRED or $PK/$ERROR with ADVAN1-4,10-12 x TRANS, IF/ELSEIF/ELSE, functions, operator spellings, $THETA/$OMEGA/$SIGMA layouts incl. BLOCK/SAME/SD/CORR/CHOLESKY/repeats/FIX positions, layout noise) are read by pharmpy; parameters, random-effect covariance and block structure, every definitely-assigned variable, Y, the ODE right-hand side per NONMEM compartment, dose compartment, lag and bioavailability are compared at sampled inputs with the meaning the reference interpreter (own recursive-descent Fortran-precedence parser + PREDPP library table) gives the same text. Sub-checks: pred, advan, struct (ADVAN5/7 with $MODEL and Kij/KiTj names, $DES incl. flows that are sums of rates), blocks (block IFs with every branch visited), logic (flat programs with unparenthesised and parenthesised mixtures of .AND./.OR./.NOT. three levels deep over relations that are true at about half of the sample points). Violations are attributed to switchable generator shapes by ablation so that known findings exclude exactly their shape; most programs carry few such shapes and the logic programs none.',
+        note='The reference interpreter is my reading of the NONMEM guides (no NONMEM available); its parser is cross-checked against the generator AST on every case. Models are read without a dataset, so CMT/RATE-dependent routing is decided on the code-generation side (C02). Tolerance 1e-9 relative (1e-6 for TRANS5/6 rate formulas).',
     ),
     dict(
         id='C13', level='exploration',
@@ -72,7 +72,7 @@ CHECKS = [
     dict(
         id='C02', level='exploration',
         technique='property-based testing: histories of modeling transformations; differential between the in-memory model (numeric IR semantics) and the generated control stream interpreted by an independent reference NM-TRAN interpreter; write/read round trip',
-        text='Histories (NONMEM start model from the corpus x 1-5 public modeling transformations) are applied; after every step the generated code is parsed by the reference interpreter and compared with the in-memory model: thetas and omega/sigma matrices, ODE right-hand sides under a consistent compartment numbering (the reported map first, any permutation otherwise), lag/bioavailability/rate/duration parameter indices on dosing compartments, default dose compartment, RATE column flags, every variable both sides define and Y (per DVID); the final model is written, read back and compared (parameters, dataset, function). A violation is keyed by the oracle clause and the transformation that introduced it (the oracle held before that step).',
+        text='Histories (NONMEM start model from the corpus x 1-5 public modeling transformations) are applied; after every step the generated code is parsed by the reference interpreter and compared with the in-memory model: thetas and omega/sigma matrices, ODE right-hand sides under a consistent compartment numbering (the reported map first, any permutation otherwise), lag/bioavailability/rate/duration parameter indices on dosing compartments, default dose compartment, RATE column flags, every variable both sides define and Y (per DVID); the final model is written, read back and compared (parameters, dataset, function). A violation is keyed by the oracle clause and the transformation that introduced it (the oracle held before that step). Second sub-check `generated`: generated flat $PRED programs (IF lines and IF/ELSEIF/ELSE blocks over previously assigned variables, written ELSE X = 0 branches) edited statement by statement through the public API (rename_symbols, one statement replaced, one inserted, an initial estimate changed); after every edit the reference meaning of the regenerated code must equal the in-memory model.',
         note='Reference interpreter = my reading of the NONMEM guides; ODEs compared through right-hand sides at sampled amounts (no integration); transformations that raise are dropped from the history (their errors belong to C06/C08).',
     ),
     dict(
@@ -90,7 +90,7 @@ CHECKS = [
     dict(
         id='C03', level='exploration',
         technique='property-based testing + grammar-based generation: byte-exact parse/print round trip on generated, grammar-derived and mutated checked-in control streams; no-op update_source; single-edit frame preservation against an own record splitter; separate atheris fuzz script',
-        text='str(parse(T)) == T for every accepted text from five sources (generated streams with layout noise, bodies drawn from pharmpy\'s own lark grammars, parameter-record layouts, line/token mutations of the 91 checked-in streams, literal texts); reading and regenerating an unmodified model reproduces the text; after one of 16 edits every record that cannot express the edit is byte-identical and in order, comments/verbatim lines inside edited code records and untouched values inside edited parameter records keep their spelling.',
+        text='str(parse(T)) == T for every accepted text from five sources (generated streams with layout noise, bodies drawn from pharmpy\'s own lark grammars, parameter-record layouts, line/token mutations of the 91 checked-in streams, literal texts); reading and regenerating an unmodified model reproduces the text; after one of 20 edits every record that cannot express the edit is byte-identical and in order, comments/verbatim lines inside edited code records and untouched values inside edited parameter records keep their spelling; option records ($TABLE, $SUBROUTINES, $ESTIMATION, $SIZES) are generated over several lines (indented or not, comments on any line) and after option-removing/adding edits every untouched option, comment and line keeps its place and the re-read model has exactly the options the edit implies (sub-check table_layout enumerates all two-line layouts of a $TABLE record).',
         note='Parse refusals are counted, not flagged (the property quantifies over accepted texts). Coverage-guided fuzzing (atheris) is a separate script tools/fuzz_c03.py because instrumentation must precede the first pharmpy import; its findings replay through the pp_text sub-check.',
     ),
     dict(
